@@ -371,7 +371,8 @@ def _worker_mail(job, wd):
         if key not in direct_cache:
             try:
                 rs = list(router.get_extractor("direct." + ext)(io.BytesIO(data), None))
-                direct_cache[key] = rs[0].get_full_text() if len(rs) == 1 else None
+                # "the attached file on its own": result type and full text
+                direct_cache[key] = (type(rs[0]).__name__, rs[0].get_full_text()) if len(rs) == 1 else None
             except Exception:
                 direct_cache[key] = None
         return direct_cache[key]
@@ -388,7 +389,7 @@ def _worker_mail(job, wd):
         if len(rs) != 1 or bt[0] not in ("bytes", "bytesnl"):
             return g.UNKNOWN
         data = c.attachments[idx].data.getvalue()
-        ft = rs[0].get_full_text()
+        ft = (type(rs[0]).__name__, rs[0].get_full_text())
         pl, j = bt[1], bt[2]
         if ft == full_text(g.EXT[pl] if pl != "bin" else "txt", data):
             return ["ft", pl, j]
